@@ -20,7 +20,7 @@ var disturberKinds = []string{
 	"cancel-mid", "cancel-early", "caller-deadline", "handler-deadline",
 	"handler-never-reads", "caller-never-reads", "both-never-read", "many-never-read",
 	"after-shutdown",
-	"creds-error", "creds-need-tls",
+	"creds-error", "creds-need-tls", "creds-error-after-cancel",
 }
 
 func init() {
@@ -219,6 +219,17 @@ func famDisturb(w *World, c *Case, rng *rand.Rand) {
 			ds = append(ds, x)
 		}
 		ds = append(ds, d)
+	case "creds-error-after-cancel":
+		// two disturbers cooperate: one RPC is cancelled by its caller, and while the peer's answer
+		// to that (a close frame for a stream the client has already disposed of) is under way,
+		// another RPC is refused locally because its credentials fail
+		x := mk("dc")
+		x.Method = "Bidi"
+		x.Client = []Op{{K: "open"}, {K: "send", N: 500}, {K: "recv"}, {K: "cancel"}, {K: "signal", Name: "dc-cancelled"}, {K: "recvall"}}
+		x.Handler = []Op{{K: "recv"}, {K: "send", N: 500}, {K: "recvall"}, {K: "ret"}}
+		d.Method, d.FailCreds = "Unary", "error"
+		d.Client = []Op{{K: "sync", Name: "dc-cancelled"}, {K: "invoke", N: 10}}
+		ds = append(ds, x, d)
 	case "handler-panics":
 		d.Method = "Bidi"
 		d.Client = []Op{{K: "open"}, {K: "send", N: 40000}, {K: "recvall"}}
